@@ -32,14 +32,12 @@ pub unsafe fn rc_drop_slow_noop<T: ?Sized, A: std::alloc::Allocator>(_: &mut std
 
 /// reference index of an opcode byte (native replays read real output)
 pub fn ref_index_of_code(code: u8) -> Option<usize> {
-    let mut i = 0;
-    while i < N_OPS {
-        if REF_OPS[i].code == code {
-            return Some(i);
-        }
-        i += 1;
+    let i = CODE2IDX[code as usize];
+    if i == 255 {
+        None
+    } else {
+        Some(i as usize)
     }
-    None
 }
 
 /// reference kind of a simulated stack object (the abstraction function of relation R)
